@@ -7,7 +7,7 @@ import DefconModel.OrderNotify
 
 namespace DefconModel
 namespace OrderNotify
-open GlyphOrder
+open GlyphOrderV1
 
 /-- sentence 1 for one delivery: old = what `font.glyphOrder` answered before the operation, new = what it
 answers when the observer is called — which is also what it answers after the operation (payload and getter
